@@ -29,6 +29,7 @@ mp_ptr gb_get(int slot, mp_size_t n, int end) {
   if (end) return (mp_ptr)(gb_base[slot] + pg + span - (size_t)n * 8);
   return (mp_ptr)(gb_base[slot] + pg);
 }
+char *cbuf_end(size_t bytes) { mp_size_t nl = (mp_size_t)((bytes + 7) / 8) + 1; mp_ptr b = gb_get(GB_SLOTS - 1, nl, 1); char *p = (char *)(b + nl) - bytes; memset(p, 0x5a, bytes); return p; }
 void gb_fill(mp_ptr p, mp_size_t n) { mp_size_t i; for (i = 0; i < n; i++) p[i] = 0x5a5a5a5a5a5a5a5aUL; }
 
 static int hv(int c) { return c >= '0' && c <= '9' ? c - '0' : c >= 'a' && c <= 'f' ? c - 'a' + 10 : c >= 'A' && c <= 'F' ? c - 'A' + 10 : -1; }
